@@ -228,17 +228,17 @@ PROPS["C02"] = dict(
         for c in ["quiet", "capture", "double_step", "en_passant", "promotion", "promotion_capture", "castle_king",
                   "castle_queen"]
     ] + [
-        K("c02", "c02_select_by_coordinates", kind="bounded", bound="one query; legal list of <= 3 arbitrary moves (generator replaced by its contract)",
+        K("c02", "c02_select_by_coordinates", kind="bounded", bound="one query; legal list of <= 3 arbitrary moves (generator and step function replaced by their contracts)",
           desc="State::by_performing_moves: coordinates (origin, destination, optional promotion) that match exactly one legal move apply "
-          "THAT move (result == by_performing_move of it); no match => UnknownMove; several => AmbiguousMove; the argument is unchanged",
-          functions=["State::by_performing_moves", "MoveSet::filter", "MoveQuery::test"], timeout=2400, tier="experimental"),
+          "THAT move, once, to the position handed in, and its successor is the result; no match => UnknownMove; several => AmbiguousMove, nothing applied; "
+          "the argument is unchanged", functions=["State::by_performing_moves", "MoveSet::filter", "MoveQuery::test"], timeout=2400, heavy=True),
     ],
     assumptions=[],
-    not_claimed=["the selection loop of State::by_performing_moves (unique coordinate match => that move, none => UnknownMove, several => "
-                 "AmbiguousMove): the harness c02_select_by_coordinates exists (tier experimental) but the Vec::from_iter growth path inside "
-                 "`filter(..).collect()` exhausts 12 GB in CBMC; what IS proved is the matcher MoveQuery::test (C12) and the step function"],
+    not_claimed=["sequences of more than one query in one by_performing_moves call as ONE obligation: the loop body is exactly one selection + one step "
+                 "(c02_select_by_coordinates is proved for an arbitrary position handed in), so longer sequences follow by induction"],
     assumed_contracts=["MoveGenerator::compute_legal_moves lists the legal moves (C01)"],
-    trusted=["the model of Vec::push (append in place when capacity suffices) in c02_select_by_coordinates"],
+    trusted=["the models of Vec::push (append in place when capacity suffices) and Vec::reserve (no-op when capacity suffices; both assert that it does) in "
+             "c02_select_by_coordinates: Kani's symbolic execution of std's growth path inside `filter(..).collect()` exhausted 12 GB"],
     technique="Kani/CBMC: pre/post contract of State::by_performing_move over fully symbolic positions and moves; selection by coordinates against the generator's contract",
     level_text="Proof, complete per step: by_performing_move is executed symbolically on a fully symbolic position "
                "(16 pairwise-disjoint bitboards, side, rights, ep target, clocks) and a fully symbolic move of each of the "
